@@ -72,9 +72,10 @@ class Ctx(object):
     def graph(self, body, flags=None):
         """CFG view used by the cut queries; by default refined by the body's constant-only bool locals"""
         if flags is None:
-            flags = flow.auto_flags(body)
-            if len(flags) > 12:
-                flags = flags[:12]
+            from . import sample
+            flags = sample.scenario_flags(body)     # constant-carrying bools and literally assigned enum tags
+            if len(flags) > 16:
+                flags = flags[:16]
         k = (body.key, tuple(flags or ()))
         g = self._gr.get(k)
         if g is None:
